@@ -619,7 +619,7 @@ def stream_partition(ctx, items):
     st = ctx.stream('partition_observed',
                     'the engine total (function value and every gradient entry) re-computed in IEEE double arithmetic under the '
                     'MODEL partition blocks n T (evaluated in Coq) must be the very double the engine returned (BIOGEME object with T threads; '
-                    'one-expression evaluator, aggregated, always 4 threads); '
+                    'one-expression evaluator, aggregated: 4 threads, values added one by one in the order of concat (blocks n 4)); '
                     'non-trivial = the same re-computation under a single block or under floor-sized blocks gives another double '
                     '(so the agreement discriminates between partitions); distinct by (table, weights, T)')
     pairs = sorted({(n, T) for (_, n, T, _, _) in items})
@@ -658,6 +658,13 @@ def stream_partition(ctx, items):
         if cov != list(range(n)):
             st.disagree({'n': n, 'T': T}, 'a partition of the rows', bounds, 'model blocks are not a partition (contradicts T04a)')
             continue
+        alt = [[(0, n)], naive_bounds(n, T)]
+        if e.get('unweighted'):
+            # one-expression evaluator, aggregated: its 4 threads each keep the LIST of their rows' values
+            # (bioThreadArgOneExpression::aggregation is not set) and the join adds them one by one in thread order:
+            # sequential accumulation over concat (blocks n 4) = rows 0..n-1 in order (T04a)
+            alt = [bounds]
+            bounds = [(r, r + 1) for r in cov]
         w = [to_float(x) for x in base.w]
         weighted = bool(c.get('weight')) and not e.get('unweighted')
         vecs = [('f', [to_float(x) for x in base.f], to_float(F(val(e['f0']))))]
@@ -668,7 +675,7 @@ def stream_partition(ctx, items):
         for name, per_row_v, engine_v in vecs:
             terms = [wi * v for wi, v in zip(w, per_row_v)] if weighted else per_row_v
             mine = emulate(terms, bounds)
-            if emulate(terms, [(0, n)]) != mine or emulate(terms, naive_bounds(n, T)) != mine:
+            if any(emulate(terms, a) != mine for a in alt):
                 nontriv = True
             if mine.hex() != engine_v.hex():
                 st.disagree(witness(c, T=T, quantity=name), {'blocks': bounds, 'recomputed': mine.hex()}, engine_v.hex(),
